@@ -381,6 +381,9 @@ func C08(x *Idx) []V {
 }
 
 func behaviourOf(sp *sc.ProcSpec, k int) string {
+	if sp != nil && sp.ShutdownCmd != "" {
+		return "nosignal" // the shutdown command replaces the signal: the command dies when the scenario says so
+	}
 	if sp == nil || len(sp.Beh) == 0 {
 		return ""
 	}
